@@ -1,7 +1,7 @@
 //! The range table and, per builder, the typed glue that exercises `check_ref`, `check` and the
 //! training entry points.
 
-use crate::core::{dbg, fit_core, guard_core, CountDist, CountRng, Ctx, Probe};
+use crate::core::{as_count, dbg, fit_core, guard_core, ignore, CountDist, CountRng, Ctx, Glue, Probe};
 use crate::data;
 use crate::spec::{p, p32, Dom::*, Expect};
 use crate::{no_cross, no_narrow, Builder};
@@ -38,6 +38,8 @@ pub fn assumptions() -> Vec<String> {
         "entry points on a rejected builder: Err text must equal Display of E::from(check_ref error) (the entry point's own From conversion); a panic or Ok is a failure; probes (counting Rng, counting Distance, counting model for Platt) must stay untouched where the builder takes one",
         "entry points on an accepted builder are compared with the checked form (Debug text or PartialEq of the fitted model, partition for hierarchical clustering whose ids follow HashMap order, sorted vocabulary for CountVectorizer, output shape only for t-SNE) only when every value lies in the per-parameter interval the tiny training run is exercised with (e.g. not with Platt minstep = 0 or SVM eps = 0, where training does not terminate in reasonable time); otherwise only check/check_ref are exercised",
         "a training failure that depends on the data (power method not converged, Platt not converged, JL dimension larger than the feature count) is an accepted outcome when the unchecked builder and the checked form fail with the same text",
+        "history cases: a builder is configured with a first assignment, one of {check_ref, check on a copy, the training entry point} runs on it (outcome ignored), then the same builder (or a clone taken afterwards) is re-configured through its setters; verdict, error text, checked value, builder equality and training result must equal those of a fresh builder configured directly with the second assignment. Parameters that can only be given to the constructor (k-means / GMM n_clusters, DBSCAN / OPTICS min_points) are equal in both assignments. The first training run only happens when the first assignment lies in the trainable intervals",
+        "count vectoriser tokenizer parameter: 0 = default regex, 1 = the regex \\b[^ ][^ ]+\\b, 2 = the invalid regex '[' (documented: 'Returns an error if the regex expression for the split is invalid'), 3 = a function tokenizer",
         "linfa_clustering::AppxDbscan is an alias of Dbscan in the pinned tree (its own hyperparams module is not compiled), so it has no separate row",
     ]
     .iter()
@@ -52,11 +54,41 @@ fn eq<T: PartialEq>(a: &T, b: &T) -> bool {
 fn eqd<T: PartialEq + std::fmt::Debug>(a: &T, b: &T) -> bool {
     a == b || dbg(a, b)
 }
+fn at(v: &[f64], i: usize) -> f64 {
+    v.get(i).copied().unwrap_or(f64::NAN)
+}
+fn cnt(v: &[f64], i: usize) -> usize {
+    as_count(at(v, i))
+}
+const NONE: &[usize] = &[];
+
+/// builder with `Clone + PartialEq`, a single `fit` entry point and no probes
+macro_rules! run_fit {
+    ($fname:ident, $err:ty, base: $base:expr, set: $set:expr, read: $read:expr, data: $data:expr, same: $same:expr) => {
+        fn $fname(cx: &Ctx, obs: &mut Obs) {
+            let ds = $data(cx);
+            let base = $base;
+            let set = $set;
+            let g = Glue {
+                cx, stale: None, first_set: None,
+                base: &base,
+                set: &set,
+                clone: Some(&|b| b.clone()),
+                touch: &|b| ignore(|| -> Result<_, $err> { b.fit(&ds) }),
+            };
+            let Some((v, hb)) = guard_core(obs, &g, Some(&eq), Some(&eq), $read) else {
+                return;
+            };
+            fit_core::<_, _, $err>(obs, &g, &v, &hb, "fit", &|b| b.fit(&ds), &|c| c.fit(&ds), &|| 0, &$same);
+        }
+    };
+}
 
 mod clustering {
     use super::*;
     use linfa_clustering::{
-        Dbscan, GaussianMixtureModel, GmmError, IncrKMeansError, KMeans, KMeansError, Optics,
+        Dbscan, DbscanParams, GaussianMixtureModel, GmmError, GmmParams, IncrKMeansError, KMeans, KMeansError, KMeansParams, Optics,
+        OpticsParams,
     };
     use linfa_nn::CommonNearestNeighbour;
 
@@ -70,6 +102,7 @@ mod clustering {
                     p("tolerance", Gt(0.0), 1e-4, &[0.37], (TINY, 10.0)),
                     p("max_n_iterations", CountGe(1), 300.0, &[7.0], (1.0, 300.0)),
                 ],
+                ctor: &[0],
                 cross: no_cross,
                 narrow: no_narrow,
                 run: kmeans,
@@ -80,6 +113,7 @@ mod clustering {
                     p("min_points", CountGe(2), 3.0, &[5.0], (2.0, 8.0)),
                     p("tolerance", Gt(0.0), 1e-4, &[0.8], (TINY, 10.0)),
                 ],
+                ctor: &[0],
                 cross: no_cross,
                 narrow: no_narrow,
                 run: dbscan,
@@ -90,6 +124,7 @@ mod clustering {
                     p("min_points", CountGe(2), 3.0, &[5.0], (2.0, 8.0)),
                     p("tolerance", Gt(0.0), 3.0, &[0.8], (TINY, 10.0)),
                 ],
+                ctor: &[0],
                 cross: no_cross,
                 narrow: no_narrow,
                 run: optics,
@@ -103,6 +138,7 @@ mod clustering {
                     p("n_runs", CountGe(1), 1.0, &[3.0], (1.0, 3.0)),
                     p("max_n_iterations", CountGe(1), 100.0, &[7.0], (1.0, 100.0)),
                 ],
+                ctor: &[0],
                 cross: no_cross,
                 narrow: no_narrow,
                 run: gmm,
@@ -111,53 +147,45 @@ mod clustering {
     }
 
     fn kmeans(cx: &Ctx, obs: &mut Obs) {
-        let (k, runs, tol, iters) = (cx.u(0), cx.u(1), cx.v(2), cx.u(3) as u64);
+        type P = KMeansParams<f64, CountRng, CountDist>;
+        type IE = IncrKMeansError<KMeans<f64, CountDist>>;
         let (rp, dp) = (Probe::new(), Probe::new());
-        let mk = || {
-            KMeans::params_with(k, CountRng::new(cx.seed, &rp), CountDist(dp.clone()))
-                .n_runs(runs)
-                .tolerance(tol)
-                .max_n_iterations(iters)
+        let ds = DatasetBase::from(data::blobs(cx.seed, 12, 2));
+        let base = |v: &[f64]| -> P { KMeans::params_with(cnt(v, 0), CountRng::new(cx.seed, &rp), CountDist(dp.clone())) };
+        let set = |b: P, v: &[f64]| b.n_runs(cnt(v, 1)).tolerance(at(v, 2)).max_n_iterations(cnt(v, 3) as u64);
+        let g = Glue {
+            cx, stale: None, first_set: None,
+            base: &base,
+            set: &set,
+            clone: Some(&|b| b.clone()),
+            touch: &|b| ignore(|| -> Result<_, KMeansError> { b.fit(&ds) }),
         };
-        let Some(v) = guard_core(
+        let Some((v, hb)) = guard_core(
             obs,
-            cx,
-            &mk,
+            &g,
             Some(&eq),
             Some(&eq),
             Some(&|c| vec![c.n_clusters() as f64, c.n_runs() as f64, c.tolerance(), c.max_n_iterations() as f64]),
         ) else {
             return;
         };
-        let ds = DatasetBase::from(data::blobs(cx.seed, 12, 2));
         let touched = || rp.get() + dp.get();
-        fit_core(
-            obs,
-            cx,
-            &v,
-            "fit",
-            || -> Result<_, KMeansError> { mk().fit(&ds) },
-            || mk().check().map_err(KMeansError::from).and_then(|c| c.fit(&ds)),
-            || mk().check_ref().err().map(|e| KMeansError::from(e).to_string()),
-            &touched,
-            dbg,
-        );
+        fit_core::<_, _, KMeansError>(obs, &g, &v, &hb, "fit", &|b| b.fit(&ds), &|c| c.fit(&ds), &touched, &dbg);
         // incremental entry point: a not-yet-converged model is a normal outcome, compare the models
-        type IE = IncrKMeansError<KMeans<f64, CountDist>>;
         let unwrap = |r: Result<KMeans<f64, CountDist>, IE>| match r {
             Err(IncrKMeansError::NotConverged(m)) => Ok(m),
             other => other,
         };
-        fit_core(
+        fit_core::<_, _, IE>(
             obs,
-            cx,
+            &g,
             &v,
+            &hb,
             "fit_with",
-            || -> Result<_, IE> { unwrap(mk().fit_with(None, &ds)) },
-            || mk().check().map_err(IE::from).and_then(|c| unwrap(c.fit_with(None, &ds))),
-            || mk().check_ref().err().map(|e| IE::from(e).to_string()),
+            &|b| unwrap(b.fit_with(None, &ds)),
+            &|c| unwrap(c.fit_with(None, &ds)),
             &touched,
-            dbg,
+            &dbg,
         );
     }
 
@@ -170,75 +198,53 @@ mod clustering {
     }
 
     fn dbscan(cx: &Ctx, obs: &mut Obs) {
-        let (mp, tol) = (cx.u(0), cx.v(1));
+        type P = DbscanParams<f64, CountDist, CommonNearestNeighbour>;
         let dp = Probe::new();
-        let mk = || Dbscan::params_with(mp, CountDist(dp.clone()), nn(cx.seed)).tolerance(tol);
-        let Some(v) = guard_core(
-            obs,
-            cx,
-            &mk,
-            Some(&eq),
-            Some(&eq),
-            Some(&|c| vec![c.minimum_points() as f64, c.tolerance()]),
-        ) else {
+        let x = data::blobs(cx.seed, 12, 2);
+        let base = |v: &[f64]| -> P { Dbscan::params_with(cnt(v, 0), CountDist(dp.clone()), nn(cx.seed)) };
+        let set = |b: P, v: &[f64]| b.tolerance(at(v, 1));
+        let g = Glue { cx, stale: None, first_set: None, base: &base, set: &set, clone: Some(&|b| b.clone()), touch: &|b| ignore(|| b.transform(&x)) };
+        let Some((v, hb)) =
+            guard_core(obs, &g, Some(&eq), Some(&eq), Some(&|c| vec![c.minimum_points() as f64, c.tolerance()]))
+        else {
             return;
         };
-        let x = data::blobs(cx.seed, 12, 2);
-        fit_core(
-            obs,
-            cx,
-            &v,
-            "transform",
-            || mk().transform(&x),
-            || mk().check().map(|c| c.transform(&x)),
-            || mk().check_ref().err().map(|e| e.to_string()),
-            &|| dp.get(),
-            dbg,
-        );
+        fit_core(obs, &g, &v, &hb, "transform", &|b| b.transform(&x), &|c| Ok(c.transform(&x)), &|| dp.get(), &dbg);
     }
 
     fn optics(cx: &Ctx, obs: &mut Obs) {
-        let (mp, tol) = (cx.u(0), cx.v(1));
+        type P = OpticsParams<f64, CountDist, CommonNearestNeighbour>;
         let dp = Probe::new();
-        let mk = || Optics::params_with(mp, CountDist(dp.clone()), nn(cx.seed)).tolerance(tol);
-        let Some(v) = guard_core(
-            obs,
-            cx,
-            &mk,
-            Some(&eq),
-            Some(&eq),
-            Some(&|c| vec![c.minimum_points() as f64, c.tolerance()]),
-        ) else {
+        let x = data::blobs(cx.seed, 12, 2);
+        let base = |v: &[f64]| -> P { Optics::params_with(cnt(v, 0), CountDist(dp.clone()), nn(cx.seed)) };
+        let set = |b: P, v: &[f64]| b.tolerance(at(v, 1));
+        let g = Glue { cx, stale: None, first_set: None, base: &base, set: &set, clone: Some(&|b| b.clone()), touch: &|b| ignore(|| b.transform(x.view())) };
+        let Some((v, hb)) =
+            guard_core(obs, &g, Some(&eq), Some(&eq), Some(&|c| vec![c.minimum_points() as f64, c.tolerance()]))
+        else {
             return;
         };
-        let x = data::blobs(cx.seed, 12, 2);
-        fit_core(
-            obs,
-            cx,
-            &v,
-            "transform",
-            || mk().transform(x.view()),
-            || mk().check().map(|c| c.transform(x.view())),
-            || mk().check_ref().err().map(|e| e.to_string()),
-            &|| dp.get(),
-            dbg,
-        );
+        fit_core(obs, &g, &v, &hb, "transform", &|b| b.transform(x.view()), &|c| Ok(c.transform(x.view())), &|| dp.get(), &dbg);
     }
 
     fn gmm(cx: &Ctx, obs: &mut Obs) {
-        let (k, tol, reg, runs, iters) = (cx.u(0), cx.v(1), cx.v(2), cx.u(3) as u64, cx.u(4) as u64);
+        type P = GmmParams<f64, CountRng>;
         let rp = Probe::new();
-        let mk = || {
-            GaussianMixtureModel::params_with_rng(k, CountRng::new(cx.seed, &rp))
-                .tolerance(tol)
-                .reg_covariance(reg)
-                .n_runs(runs)
-                .max_n_iterations(iters)
+        let ds = DatasetBase::from(data::blobs(cx.seed, 16, 2));
+        let base = |v: &[f64]| -> P { GaussianMixtureModel::params_with_rng(cnt(v, 0), CountRng::new(cx.seed, &rp)) };
+        let set = |b: P, v: &[f64]| {
+            b.tolerance(at(v, 1)).reg_covariance(at(v, 2)).n_runs(cnt(v, 3) as u64).max_n_iterations(cnt(v, 4) as u64)
         };
-        let Some(v) = guard_core(
+        let g = Glue {
+            cx, stale: None, first_set: None,
+            base: &base,
+            set: &set,
+            clone: Some(&|b| b.clone()),
+            touch: &|b| ignore(|| -> Result<_, GmmError> { b.fit(&ds) }),
+        };
+        let Some((v, hb)) = guard_core(
             obs,
-            cx,
-            &mk,
+            &g,
             Some(&eq),
             Some(&eq),
             Some(&|c| {
@@ -247,25 +253,14 @@ mod clustering {
         ) else {
             return;
         };
-        let ds = DatasetBase::from(data::blobs(cx.seed, 16, 2));
-        fit_core(
-            obs,
-            cx,
-            &v,
-            "fit",
-            || -> Result<_, GmmError> { mk().fit(&ds) },
-            || mk().check().and_then(|c| c.fit(&ds)),
-            || mk().check_ref().err().map(|e| e.to_string()),
-            &|| rp.get(),
-            dbg,
-        );
+        fit_core::<_, _, GmmError>(obs, &g, &v, &hb, "fit", &|b| b.fit(&ds), &|c| c.fit(&ds), &|| rp.get(), &dbg);
     }
 }
 
 mod linear {
     use super::*;
     use linfa_elasticnet::{ElasticNetError, ElasticNetParams, MultiTaskElasticNetParams};
-    use linfa_linear::{LinearError, TweedieRegressor};
+    use linfa_linear::{LinearError, TweedieRegressor, TweedieRegressorParams};
     use linfa_logistic::{LogisticRegression, MultiLogisticRegression};
 
     fn enet_params() -> Vec<crate::spec::ParamSpec> {
@@ -278,28 +273,30 @@ mod linear {
             p("max_iterations", CountGeAmbBelow(1), 1000.0, &[50.0], (1.0, 1000.0)),
         ]
     }
+    fn logistic_params() -> Vec<crate::spec::ParamSpec> {
+        vec![
+            // "alpha must be a positive, finite number" while 0 is accepted: ambiguous at 0
+            p("alpha", GeAmb(0.0), 1.0, &[0.1], (1e-6, 10.0)),
+            p("gradient_tolerance", Gt(0.0), 1e-4, &[1e-2], (1e-8, 1.0)),
+        ]
+    }
 
     pub fn builders() -> Vec<Builder> {
         vec![
-            Builder { id: "elastic_net", params: enet_params(), cross: no_cross, narrow: no_narrow, run: enet },
-            Builder { id: "multi_task_elastic_net", params: enet_params(), cross: no_cross, narrow: no_narrow, run: mt_enet },
+            Builder { id: "elastic_net", params: enet_params(), ctor: NONE, cross: no_cross, narrow: no_narrow, run: enet },
             Builder {
-                id: "logistic",
-                params: vec![
-                    // "alpha must be a positive, finite number" while 0 is accepted: ambiguous at 0
-                    p("alpha", GeAmb(0.0), 1.0, &[0.1], (1e-6, 10.0)),
-                    p("gradient_tolerance", Gt(0.0), 1e-4, &[1e-2], (1e-8, 1.0)),
-                ],
+                id: "multi_task_elastic_net",
+                params: enet_params(),
+                ctor: NONE,
                 cross: no_cross,
                 narrow: no_narrow,
-                run: logistic,
+                run: mt_enet,
             },
+            Builder { id: "logistic", params: logistic_params(), ctor: NONE, cross: no_cross, narrow: no_narrow, run: logistic },
             Builder {
                 id: "multi_logistic",
-                params: vec![
-                    p("alpha", GeAmb(0.0), 1.0, &[0.1], (1e-6, 10.0)),
-                    p("gradient_tolerance", Gt(0.0), 1e-4, &[1e-2], (1e-8, 1.0)),
-                ],
+                params: logistic_params(),
+                ctor: NONE,
                 cross: no_cross,
                 narrow: no_narrow,
                 run: multi_logistic,
@@ -310,6 +307,7 @@ mod linear {
                     p("alpha", Ge(0.0), 1.0, &[0.1], (0.0, 10.0)),
                     p("power", NotOpen(0.0, 1.0), 1.0, &[1.5, 2.0, 3.0], (0.0, 3.0)),
                 ],
+                ctor: NONE,
                 cross: no_cross,
                 narrow: no_narrow,
                 run: tweedie,
@@ -317,136 +315,54 @@ mod linear {
         ]
     }
 
-    fn enet(cx: &Ctx, obs: &mut Obs) {
-        let (pen, l1, tol, it) = (cx.v(0), cx.v(1), cx.v(2), cx.u(3) as u32);
-        let mk = || ElasticNetParams::<f64>::new().penalty(pen).l1_ratio(l1).tolerance(tol).max_iterations(it);
-        let Some(v) = guard_core(
-            obs,
-            cx,
-            &mk,
-            Some(&eq),
-            Some(&eq),
-            Some(&|c| vec![c.penalty(), c.l1_ratio(), c.tolerance(), c.max_iterations() as f64]),
-        ) else {
-            return;
-        };
-        let x = data::blobs(cx.seed, 10, 2);
-        let y = data::regression_targets(&x, cx.seed);
-        let ds = DatasetBase::new(x, y);
-        fit_core(
-            obs,
-            cx,
-            &v,
-            "fit",
-            || -> Result<_, ElasticNetError> { mk().fit(&ds) },
-            || mk().check().and_then(|c| c.fit(&ds)),
-            || mk().check_ref().err().map(|e| e.to_string()),
-            &|| 0,
-            dbg,
-        );
-    }
+    run_fit!(enet, ElasticNetError,
+        base: |_: &[f64]| ElasticNetParams::<f64>::new(),
+        set: |b: ElasticNetParams<f64>, v: &[f64]| b.penalty(at(v, 0)).l1_ratio(at(v, 1)).tolerance(at(v, 2)).max_iterations(cnt(v, 3) as u32),
+        read: Some(&|c| vec![c.penalty(), c.l1_ratio(), c.tolerance(), c.max_iterations() as f64]),
+        data: |cx: &Ctx| {
+            let x = data::blobs(cx.seed, 10, 2);
+            let y = data::regression_targets(&x, cx.seed);
+            DatasetBase::new(x, y)
+        },
+        same: dbg);
 
-    fn mt_enet(cx: &Ctx, obs: &mut Obs) {
-        let (pen, l1, tol, it) = (cx.v(0), cx.v(1), cx.v(2), cx.u(3) as u32);
-        let mk = || MultiTaskElasticNetParams::<f64>::new().penalty(pen).l1_ratio(l1).tolerance(tol).max_iterations(it);
-        let Some(v) = guard_core(
-            obs,
-            cx,
-            &mk,
-            Some(&eq),
-            Some(&eq),
-            Some(&|c| vec![c.penalty(), c.l1_ratio(), c.tolerance(), c.max_iterations() as f64]),
-        ) else {
-            return;
-        };
-        let x = data::blobs(cx.seed, 10, 2);
-        let y1 = data::regression_targets(&x, cx.seed);
-        let y2 = data::regression_targets(&x, cx.seed + 17);
-        let y = ndarray::stack![ndarray::Axis(1), y1, y2];
-        let ds = DatasetBase::new(x, y);
-        fit_core(
-            obs,
-            cx,
-            &v,
-            "fit",
-            || -> Result<_, ElasticNetError> { mk().fit(&ds) },
-            || mk().check().and_then(|c| c.fit(&ds)),
-            || mk().check_ref().err().map(|e| e.to_string()),
-            &|| 0,
-            dbg,
-        );
-    }
+    run_fit!(mt_enet, ElasticNetError,
+        base: |_: &[f64]| MultiTaskElasticNetParams::<f64>::new(),
+        set: |b: MultiTaskElasticNetParams<f64>, v: &[f64]| b.penalty(at(v, 0)).l1_ratio(at(v, 1)).tolerance(at(v, 2)).max_iterations(cnt(v, 3) as u32),
+        read: Some(&|c| vec![c.penalty(), c.l1_ratio(), c.tolerance(), c.max_iterations() as f64]),
+        data: |cx: &Ctx| {
+            let x = data::blobs(cx.seed, 10, 2);
+            let y1 = data::regression_targets(&x, cx.seed);
+            let y2 = data::regression_targets(&x, cx.seed + 17);
+            let y = ndarray::stack![ndarray::Axis(1), y1, y2];
+            DatasetBase::new(x, y)
+        },
+        same: dbg);
 
-    fn logistic(cx: &Ctx, obs: &mut Obs) {
-        let (alpha, gt) = (cx.v(0), cx.v(1));
-        let mk = || LogisticRegression::<f64>::new().alpha(alpha).gradient_tolerance(gt).max_iterations(30);
-        let Some(v) = guard_core(obs, cx, &mk, Some(&eq), Some(&eq), None) else {
-            return;
-        };
-        let x = data::blobs(cx.seed, 10, 2);
-        let ds = DatasetBase::new(x, data::class_targets(10, 2));
-        fit_core(
-            obs,
-            cx,
-            &v,
-            "fit",
-            || -> Result<_, linfa_logistic::error::Error> { mk().fit(&ds) },
-            || mk().check().and_then(|c| c.fit(&ds)),
-            || mk().check_ref().err().map(|e| e.to_string()),
-            &|| 0,
-            eqd,
-        );
-    }
+    run_fit!(logistic, linfa_logistic::error::Error,
+        base: |_: &[f64]| LogisticRegression::<f64>::new().max_iterations(30),
+        set: |b: LogisticRegression<f64>, v: &[f64]| b.alpha(at(v, 0)).gradient_tolerance(at(v, 1)),
+        read: None,
+        data: |cx: &Ctx| DatasetBase::new(data::blobs(cx.seed, 10, 2), data::class_targets(10, 2)),
+        same: eqd);
 
-    fn multi_logistic(cx: &Ctx, obs: &mut Obs) {
-        let (alpha, gt) = (cx.v(0), cx.v(1));
-        let mk = || MultiLogisticRegression::<f64>::new().alpha(alpha).gradient_tolerance(gt).max_iterations(30);
-        let Some(v) = guard_core(obs, cx, &mk, Some(&eq), Some(&eq), None) else {
-            return;
-        };
-        let x = data::blobs(cx.seed, 12, 2);
-        let ds = DatasetBase::new(x, data::class_targets(12, 3));
-        fit_core(
-            obs,
-            cx,
-            &v,
-            "fit",
-            || -> Result<_, linfa_logistic::error::Error> { mk().fit(&ds) },
-            || mk().check().and_then(|c| c.fit(&ds)),
-            || mk().check_ref().err().map(|e| e.to_string()),
-            &|| 0,
-            eqd,
-        );
-    }
+    run_fit!(multi_logistic, linfa_logistic::error::Error,
+        base: |_: &[f64]| MultiLogisticRegression::<f64>::new().max_iterations(30),
+        set: |b: MultiLogisticRegression<f64>, v: &[f64]| b.alpha(at(v, 0)).gradient_tolerance(at(v, 1)),
+        read: None,
+        data: |cx: &Ctx| DatasetBase::new(data::blobs(cx.seed, 12, 2), data::class_targets(12, 3)),
+        same: eqd);
 
-    fn tweedie(cx: &Ctx, obs: &mut Obs) {
-        let (alpha, power) = (cx.v(0), cx.v(1));
-        let mk = || TweedieRegressor::<f64>::params().alpha(alpha).power(power).max_iter(30);
-        let Some(v) = guard_core(
-            obs,
-            cx,
-            &mk,
-            Some(&eq),
-            Some(&eq),
-            Some(&|c| vec![c.alpha(), c.power()]),
-        ) else {
-            return;
-        };
-        let x = data::blobs(cx.seed, 10, 2);
-        let y = data::positive_targets(&x, cx.seed);
-        let ds = DatasetBase::new(x, y);
-        fit_core(
-            obs,
-            cx,
-            &v,
-            "fit",
-            || -> Result<_, LinearError<f64>> { mk().fit(&ds) },
-            || mk().check().and_then(|c| c.fit(&ds)),
-            || mk().check_ref().err().map(|e| e.to_string()),
-            &|| 0,
-            eqd,
-        );
-    }
+    run_fit!(tweedie, LinearError<f64>,
+        base: |_: &[f64]| TweedieRegressor::<f64>::params().max_iter(30),
+        set: |b: TweedieRegressorParams<f64>, v: &[f64]| b.alpha(at(v, 0)).power(at(v, 1)),
+        read: Some(&|c| vec![c.alpha(), c.power()]),
+        data: |cx: &Ctx| {
+            let x = data::blobs(cx.seed, 10, 2);
+            let y = data::positive_targets(&x, cx.seed);
+            DatasetBase::new(x, y)
+        },
+        same: eqd);
 }
 
 mod svm {
@@ -483,174 +399,136 @@ mod svm {
     }
 
     pub fn builders() -> Vec<Builder> {
+        let b = |id, params, run| Builder { id, params, ctor: NONE, cross: no_cross, narrow: no_narrow, run };
         vec![
-            Builder { id: "svm_c_bool", params: c_params(), cross: no_cross, narrow: no_narrow, run: c_bool },
-            Builder { id: "svm_nu_bool", params: nu_params(), cross: no_cross, narrow: no_narrow, run: nu_bool },
-            Builder { id: "svm_c_pr", params: c_params(), cross: no_cross, narrow: no_narrow, run: c_pr },
-            Builder { id: "svm_nu_pr", params: nu_params(), cross: no_cross, narrow: no_narrow, run: nu_pr },
-            Builder { id: "svm_one_class", params: nu_params(), cross: no_cross, narrow: no_narrow, run: one_class },
-            Builder {
-                id: "svr_c",
-                params: with(vec![
+            b("svm_c_bool", c_params(), c_bool),
+            b("svm_nu_bool", nu_params(), nu_bool),
+            b("svm_c_pr", c_params(), c_pr),
+            b("svm_nu_pr", nu_params(), nu_pr),
+            b("svm_one_class", nu_params(), one_class),
+            b(
+                "svr_c",
+                with(vec![
                     p("c", Gt(0.0), 1.0, &[10.0], (1e-3, 100.0)),
                     // no documented range for the loss epsilon, the code rejects <= 0: consistency only there
                     p("loss_eps", AmbNonPos, 0.1, &[0.01], (1e-4, 1.0)),
                 ]),
-                cross: no_cross,
-                narrow: no_narrow,
-                run: svr_c,
-            },
-            Builder { id: "svr_nu", params: nu_params(), cross: no_cross, narrow: no_narrow, run: svr_nu },
+                svr_c,
+            ),
+            b("svr_nu", nu_params(), svr_nu),
         ]
     }
 
-    fn platt(cx: &Ctx, at: usize) -> linfa::platt_scaling::PlattParams<f64, ()> {
-        Platt::params().maxiter(cx.u(at)).minstep(cx.v(at + 1)).sigma(cx.v(at + 2))
+    /// solver eps and the nested Platt parameters, stored from index `i` on
+    fn tail<T>(b: SvmParams<f64, T>, v: &[f64], i: usize) -> SvmParams<f64, T> {
+        b.eps(at(v, i)).with_platt_params(Platt::params().maxiter(cnt(v, i + 1)).minstep(at(v, i + 2)).sigma(at(v, i + 3)))
     }
-    fn base<T>(cx: &Ctx, at: usize) -> SvmParams<f64, T> {
-        Svm::<f64, T>::params().eps(cx.v(at)).with_platt_params(platt(cx, at + 1))
+    fn set_c<T>(b: SvmParams<f64, T>, v: &[f64]) -> SvmParams<f64, T> {
+        tail(b.pos_neg_weights(at(v, 0), at(v, 1)), v, 2)
+    }
+    fn set_nu<T>(b: SvmParams<f64, T>, v: &[f64]) -> SvmParams<f64, T> {
+        tail(b.nu_weight(at(v, 0)), v, 1)
+    }
+    // the setters document that C weights and Nu displace each other; NaN (= mismatch) when the other one is still set
+    fn read_c<T>(c: &linfa_svm::SvmValidParams<f64, T>) -> Vec<f64> {
+        let (a, b) = c.c().unwrap_or((f64::NAN, f64::NAN));
+        vec![if c.nu().is_none() { a } else { f64::NAN }, b, c.solver_params().eps]
+    }
+    fn read_nu<T>(c: &linfa_svm::SvmValidParams<f64, T>) -> Vec<f64> {
+        vec![if c.c().is_none() { c.nu().map(|x| x.0).unwrap_or(f64::NAN) } else { f64::NAN }, c.solver_params().eps]
+    }
+    fn cls_data(cx: &Ctx) -> DatasetBase<ndarray::Array2<f64>, Array1<bool>> {
+        DatasetBase::new(data::blobs(cx.seed, 10, 2), data::bool_targets(10))
+    }
+    fn reg_data(cx: &Ctx) -> DatasetBase<ndarray::Array2<f64>, Array1<f64>> {
+        let x = data::blobs(cx.seed, 10, 2);
+        let y = data::regression_targets(&x, cx.seed);
+        DatasetBase::new(x, y)
     }
 
-    macro_rules! classification {
-        ($name:ident, $t:ty, $nhead:expr, $set:expr, $read:expr) => {
-            fn $name(cx: &Ctx, obs: &mut Obs) {
-                let mk = || $set(base::<$t>(cx, $nhead), cx);
-                let Some(v) = guard_core(obs, cx, &mk, Some(&eq), Some(&eq), Some(&$read)) else {
+    /// like `run_fit!`, plus: on odd seeds the first life of a history case selects the *other* of the two mutually
+    /// exclusive variants (C weights <-> Nu), which the setter under test then has to displace completely
+    macro_rules! run_svm {
+        ($fname:ident, $t:ty, $set:expr, $other:expr, $read:expr, $data:expr) => {
+            fn $fname(cx: &Ctx, obs: &mut Obs) {
+                let ds = $data(cx);
+                let base = |_: &[f64]| Svm::<f64, $t>::params();
+                let set = $set;
+                let other = $other;
+                let switch = cx.hist.is_some() && cx.seed % 2 == 1;
+                obs.class_if(switch, "history_first_life_other_svm_variant");
+                let g = Glue {
+                    cx,
+                    stale: None,
+                    first_set: if switch { Some(&other) } else { None },
+                    base: &base,
+                    set: &set,
+                    clone: Some(&|b| b.clone()),
+                    touch: &|b| ignore(|| -> Result<_, SvmError> { b.fit(&ds) }),
+                };
+                let Some((v, hb)) = guard_core(obs, &g, Some(&eq), Some(&eq), Some(&$read)) else {
                     return;
                 };
-                let ds = DatasetBase::new(data::blobs(cx.seed, 10, 2), data::bool_targets(10));
-                fit_core(
-                    obs,
-                    cx,
-                    &v,
-                    "fit",
-                    || -> Result<_, SvmError> { mk().fit(&ds) },
-                    || mk().check().and_then(|c| c.fit(&ds)),
-                    || mk().check_ref().err().map(|e| e.to_string()),
-                    &|| 0,
-                    eqd,
-                );
+                fit_core::<_, _, SvmError>(obs, &g, &v, &hb, "fit", &|b| b.fit(&ds), &|c| c.fit(&ds), &|| 0, &eqd);
             }
         };
     }
-    fn set_c<T>(b: SvmParams<f64, T>, cx: &Ctx) -> SvmParams<f64, T> {
-        b.pos_neg_weights(cx.v(0), cx.v(1))
+    /// first life with Nu (always a valid, trainable one), solver eps / Platt parameters from the earlier assignment
+    fn first_nu<T>(b: SvmParams<f64, T>, v: &[f64]) -> SvmParams<f64, T> {
+        tail(b.nu_weight(0.4), v, 2)
     }
-    fn set_nu<T>(b: SvmParams<f64, T>, cx: &Ctx) -> SvmParams<f64, T> {
-        b.nu_weight(cx.v(0))
+    /// first life with C weights (valid, different from the default (1, 1))
+    fn first_c<T>(b: SvmParams<f64, T>, v: &[f64]) -> SvmParams<f64, T> {
+        tail(b.pos_neg_weights(7.0, 3.0), v, 1)
     }
-    fn read_c<T>(c: &linfa_svm::SvmValidParams<f64, T>) -> Vec<f64> {
-        let (a, b) = c.c().unwrap_or((f64::NAN, f64::NAN));
-        vec![a, b, c.solver_params().eps]
+    fn one_class_data(cx: &Ctx) -> DatasetBase<ndarray::Array2<f64>, Array1<()>> {
+        DatasetBase::new(data::blobs(cx.seed, 10, 2), Array1::from_elem(10, ()))
     }
-    fn read_nu<T>(c: &linfa_svm::SvmValidParams<f64, T>) -> Vec<f64> {
-        vec![c.nu().map(|x| x.0).unwrap_or(f64::NAN), c.solver_params().eps]
-    }
-    classification!(c_bool, bool, 2, set_c, read_c);
-    classification!(nu_bool, bool, 1, set_nu, read_nu);
-    classification!(c_pr, Pr, 2, set_c, read_c);
-    classification!(nu_pr, Pr, 1, set_nu, read_nu);
-
-    fn one_class(cx: &Ctx, obs: &mut Obs) {
-        let mk = || set_nu(base::<Pr>(cx, 1), cx);
-        let Some(v) = guard_core(obs, cx, &mk, Some(&eq), Some(&eq), Some(&read_nu)) else {
-            return;
-        };
-        let ds = DatasetBase::new(data::blobs(cx.seed, 10, 2), Array1::from_elem(10, ()));
-        fit_core(
-            obs,
-            cx,
-            &v,
-            "fit",
-            || -> Result<Svm<f64, bool>, SvmError> { mk().fit(&ds) },
-            || mk().check().and_then(|c| c.fit(&ds)),
-            || mk().check_ref().err().map(|e| e.to_string()),
-            &|| 0,
-            eqd,
-        );
-    }
-
-    fn svr_c(cx: &Ctx, obs: &mut Obs) {
-        let mk = || base::<f64>(cx, 2).c_svr(cx.v(0), Some(cx.v(1)));
-        let Some(v) = guard_core(obs, cx, &mk, Some(&eq), Some(&eq), Some(&read_c)) else {
-            return;
-        };
-        let x = data::blobs(cx.seed, 10, 2);
-        let y = data::regression_targets(&x, cx.seed);
-        let ds = DatasetBase::new(x, y);
-        fit_core(
-            obs,
-            cx,
-            &v,
-            "fit",
-            || -> Result<_, SvmError> { mk().fit(&ds) },
-            || mk().check().and_then(|c| c.fit(&ds)),
-            || mk().check_ref().err().map(|e| e.to_string()),
-            &|| 0,
-            eqd,
-        );
-    }
-
-    fn svr_nu(cx: &Ctx, obs: &mut Obs) {
-        let mk = || base::<f64>(cx, 1).nu_svr(cx.v(0), None);
-        let Some(v) = guard_core(obs, cx, &mk, Some(&eq), Some(&eq), Some(&read_nu)) else {
-            return;
-        };
-        let x = data::blobs(cx.seed, 10, 2);
-        let y = data::regression_targets(&x, cx.seed);
-        let ds = DatasetBase::new(x, y);
-        fit_core(
-            obs,
-            cx,
-            &v,
-            "fit",
-            || -> Result<_, SvmError> { mk().fit(&ds) },
-            || mk().check().and_then(|c| c.fit(&ds)),
-            || mk().check_ref().err().map(|e| e.to_string()),
-            &|| 0,
-            eqd,
-        );
-    }
+    run_svm!(c_bool, bool, set_c::<bool>, first_nu::<bool>, read_c, cls_data);
+    run_svm!(nu_bool, bool, set_nu::<bool>, first_c::<bool>, read_nu, cls_data);
+    run_svm!(c_pr, Pr, set_c::<Pr>, first_nu::<Pr>, read_c, cls_data);
+    run_svm!(nu_pr, Pr, set_nu::<Pr>, first_c::<Pr>, read_nu, cls_data);
+    run_svm!(one_class, Pr, set_nu::<Pr>, first_c::<Pr>, read_nu, one_class_data);
+    run_svm!(
+        svr_c,
+        f64,
+        |b: SvmParams<f64, f64>, v: &[f64]| tail(b.c_svr(at(v, 0), Some(at(v, 1))), v, 2),
+        |b: SvmParams<f64, f64>, v: &[f64]| tail(b.nu_svr(0.4, Some(2.0)), v, 2),
+        read_c,
+        reg_data
+    );
+    run_svm!(
+        svr_nu,
+        f64,
+        |b: SvmParams<f64, f64>, v: &[f64]| tail(b.nu_svr(at(v, 0), None), v, 1),
+        |b: SvmParams<f64, f64>, v: &[f64]| tail(b.c_svr(7.0, Some(0.3)), v, 1),
+        read_nu,
+        reg_data
+    );
 }
 
 mod misc {
     use super::*;
     use linfa::composing::PlattError;
+    use linfa::platt_scaling::PlattParams;
     use linfa::traits::PredictInplace;
     use linfa::Platt;
-    use linfa_bayes::{GaussianNb, MultinomialNb, NaiveBayesError};
-    use linfa_ftrl::{Ftrl, FtrlError};
+    use linfa_bayes::{GaussianNb, GaussianNbParams, MultinomialNb, MultinomialNbParams, NaiveBayesError};
+    use linfa_ftrl::{Ftrl, FtrlError, FtrlParams};
     use linfa_hierarchical::{HierarchicalCluster, HierarchicalError};
     use linfa_kernel::{Kernel, KernelMethod};
-    use linfa_trees::DecisionTree;
+    use linfa_trees::{DecisionTree, DecisionTreeParams};
     use ndarray::{Array1, Array2};
 
     pub fn builders() -> Vec<Builder> {
+        let b = |id, params, run| Builder { id, params, ctor: NONE, cross: no_cross, narrow: no_narrow, run };
         vec![
-            Builder {
-                id: "decision_tree",
-                params: vec![p("min_impurity_decrease", TreeFloor, 1e-5, &[1e-3], (1e-12, 0.5))],
-                cross: no_cross,
-                narrow: no_narrow,
-                run: tree,
-            },
-            Builder {
-                id: "gaussian_nb",
-                params: vec![p("var_smoothing", Ge(0.0), 1e-9, &[1e-3], (0.0, 1.0))],
-                cross: no_cross,
-                narrow: no_narrow,
-                run: gnb,
-            },
-            Builder {
-                id: "multinomial_nb",
-                params: vec![p("alpha", Ge(0.0), 1.0, &[0.3], (0.0, 10.0))],
-                cross: no_cross,
-                narrow: no_narrow,
-                run: mnb,
-            },
-            Builder {
-                id: "ftrl",
-                params: vec![
+            b("decision_tree", vec![p("min_impurity_decrease", TreeFloor, 1e-5, &[1e-3], (1e-12, 0.5))], tree),
+            b("gaussian_nb", vec![p("var_smoothing", Ge(0.0), 1e-9, &[1e-3], (0.0, 1.0))], gnb),
+            b("multinomial_nb", vec![p("alpha", Ge(0.0), 1.0, &[0.3], (0.0, 10.0))], mnb),
+            b(
+                "ftrl",
+                vec![
                     // "alpha must be positive and finite" while 0 is accepted: ambiguous at 0
                     p("alpha", GeAmb(0.0), 0.005, &[0.1], (1e-6, 1.0)),
                     // same wording, but 0.0 is the documented default: 0 is in range
@@ -658,146 +536,124 @@ mod misc {
                     p("l1_ratio", Closed(0.0, 1.0), 0.5, &[0.25], (0.0, 1.0)),
                     p("l2_ratio", Closed(0.0, 1.0), 0.5, &[0.75], (0.0, 1.0)),
                 ],
-                cross: no_cross,
-                narrow: no_narrow,
-                run: ftrl,
-            },
-            Builder {
-                id: "platt",
-                params: vec![
+                ftrl,
+            ),
+            b(
+                "platt",
+                vec![
                     p("maxiter", CountGe(1), 100.0, &[30.0], (1.0, 100.0)),
                     p("minstep", GeAmb(0.0), 1e-10, &[1e-6], (TINY, 1e-3)),
                     p("sigma", GeAmb(0.0), 1e-12, &[1e-6], (1e-14, 1e-3)),
                 ],
-                cross: no_cross,
-                narrow: no_narrow,
-                run: platt,
-            },
-            Builder {
-                id: "hierarchical_num_clusters",
-                params: vec![p("num_clusters", CountGe(1), 2.0, &[3.0], (1.0, 12.0))],
-                cross: no_cross,
-                narrow: no_narrow,
-                run: hier_num,
-            },
-            Builder {
-                id: "hierarchical_max_distance",
-                // no doc comment states the range; the code rejects negative values: 0 is left ambiguous
-                params: vec![p("max_distance", GeAmb(0.0), 0.5, &[0.1, 3.0], (TINY, 100.0))],
-                cross: no_cross,
-                narrow: no_narrow,
-                run: hier_dist,
-            },
+                platt,
+            ),
+            b("hierarchical_num_clusters", vec![p("num_clusters", CountGe(1), 2.0, &[3.0], (1.0, 12.0))], hier_num),
+            // no doc comment states the range; the code rejects negative values: 0 is left ambiguous
+            b("hierarchical_max_distance", vec![p("max_distance", GeAmb(0.0), 0.5, &[0.1, 3.0], (TINY, 100.0))], hier_dist),
         ]
     }
 
-    fn tree(cx: &Ctx, obs: &mut Obs) {
-        let mid = cx.v(0);
-        let mk = || DecisionTree::<f64, usize>::params().min_impurity_decrease(mid);
-        let Some(v) = guard_core(obs, cx, &mk, Some(&eq), Some(&eq), Some(&|c| vec![c.min_impurity_decrease()])) else {
-            return;
-        };
-        let ds = DatasetBase::new(data::blobs(cx.seed, 12, 2), data::class_targets(12, 2));
-        fit_core(
-            obs,
-            cx,
-            &v,
-            "fit",
-            || -> Result<_, linfa::Error> { mk().fit(&ds) },
-            || mk().check().and_then(|c| c.fit(&ds)),
-            || mk().check_ref().err().map(|e| e.to_string()),
-            &|| 0,
-            eqd,
-        );
+    fn labelled(cx: &Ctx) -> DatasetBase<Array2<f64>, Array1<usize>> {
+        DatasetBase::new(data::blobs(cx.seed, 12, 2), data::class_targets(12, 2))
     }
 
+    run_fit!(tree, linfa::Error,
+        base: |_: &[f64]| DecisionTree::<f64, usize>::params(),
+        set: |b: DecisionTreeParams<f64, usize>, v: &[f64]| b.min_impurity_decrease(at(v, 0)),
+        read: Some(&|c| vec![c.min_impurity_decrease()]),
+        data: labelled,
+        same: eqd);
+
     fn gnb(cx: &Ctx, obs: &mut Obs) {
-        let s = cx.v(0);
-        let mk = || GaussianNb::<f64, usize>::params().var_smoothing(s);
-        let Some(v) = guard_core(obs, cx, &mk, Some(&eq), Some(&eq), Some(&|c| vec![c.var_smoothing()])) else {
+        type P = GaussianNbParams<f64, usize>;
+        let ds = labelled(cx);
+        let base = |_: &[f64]| -> P { GaussianNb::<f64, usize>::params() };
+        let set = |b: P, v: &[f64]| b.var_smoothing(at(v, 0));
+        let g = Glue {
+            cx, stale: None, first_set: None,
+            base: &base,
+            set: &set,
+            clone: Some(&|b| b.clone()),
+            touch: &|b| ignore(|| -> Result<_, NaiveBayesError> { b.fit(&ds) }),
+        };
+        let Some((v, hb)) = guard_core(obs, &g, Some(&eq), Some(&eq), Some(&|c| vec![c.var_smoothing()])) else {
             return;
         };
-        let ds = DatasetBase::new(data::blobs(cx.seed, 12, 2), data::class_targets(12, 2));
-        fit_core(
+        fit_core::<_, _, NaiveBayesError>(obs, &g, &v, &hb, "fit", &|b| b.fit(&ds), &|c| c.fit(&ds), &|| 0, &eqd);
+        fit_core::<_, _, NaiveBayesError>(
             obs,
-            cx,
+            &g,
             &v,
-            "fit",
-            || -> Result<_, NaiveBayesError> { mk().fit(&ds) },
-            || mk().check().and_then(|c| c.fit(&ds)),
-            || mk().check_ref().err().map(|e| e.to_string()),
-            &|| 0,
-            eqd,
-        );
-        fit_core(
-            obs,
-            cx,
-            &v,
+            &hb,
             "fit_with",
-            || -> Result<_, NaiveBayesError> { mk().fit_with(None, &ds) },
-            || mk().check().and_then(|c| c.fit_with(None, &ds)),
-            || mk().check_ref().err().map(|e| e.to_string()),
+            &|b| b.fit_with(None, &ds),
+            &|c| c.fit_with(None, &ds),
             &|| 0,
-            eqd,
+            &eqd,
         );
     }
 
     fn mnb(cx: &Ctx, obs: &mut Obs) {
-        let s = cx.v(0);
-        let mk = || MultinomialNb::<f64, usize>::params().alpha(s);
-        let Some(v) = guard_core(obs, cx, &mk, Some(&eq), Some(&eq), Some(&|c| vec![c.alpha()])) else {
+        type P = MultinomialNbParams<f64, usize>;
+        let ds = DatasetBase::new(data::counts(cx.seed, 12, 3), data::class_targets(12, 2));
+        let base = |_: &[f64]| -> P { MultinomialNb::<f64, usize>::params() };
+        let set = |b: P, v: &[f64]| b.alpha(at(v, 0));
+        let g = Glue {
+            cx, stale: None, first_set: None,
+            base: &base,
+            set: &set,
+            clone: Some(&|b| b.clone()),
+            touch: &|b| ignore(|| -> Result<_, NaiveBayesError> { b.fit(&ds) }),
+        };
+        let Some((v, hb)) = guard_core(obs, &g, Some(&eq), Some(&eq), Some(&|c| vec![c.alpha()])) else {
             return;
         };
-        let ds = DatasetBase::new(data::counts(cx.seed, 12, 3), data::class_targets(12, 2));
-        fit_core(
+        fit_core::<_, _, NaiveBayesError>(obs, &g, &v, &hb, "fit", &|b| b.fit(&ds), &|c| c.fit(&ds), &|| 0, &eqd);
+        fit_core::<_, _, NaiveBayesError>(
             obs,
-            cx,
+            &g,
             &v,
-            "fit",
-            || -> Result<_, NaiveBayesError> { mk().fit(&ds) },
-            || mk().check().and_then(|c| c.fit(&ds)),
-            || mk().check_ref().err().map(|e| e.to_string()),
-            &|| 0,
-            eqd,
-        );
-        fit_core(
-            obs,
-            cx,
-            &v,
+            &hb,
             "fit_with",
-            || -> Result<_, NaiveBayesError> { mk().fit_with(None, &ds) },
-            || mk().check().and_then(|c| c.fit_with(None, &ds)),
-            || mk().check_ref().err().map(|e| e.to_string()),
+            &|b| b.fit_with(None, &ds),
+            &|c| c.fit_with(None, &ds),
             &|| 0,
-            eqd,
+            &eqd,
         );
     }
 
     fn ftrl(cx: &Ctx, obs: &mut Obs) {
-        let (alpha, beta, l1, l2) = (cx.v(0), cx.v(1), cx.v(2), cx.v(3));
+        type P = FtrlParams<f64, CountRng>;
         let rp = Probe::new();
-        let mk = || Ftrl::<f64>::params_with_rng(CountRng::new(cx.seed, &rp)).alpha(alpha).beta(beta).l1_ratio(l1).l2_ratio(l2);
-        let Some(v) = guard_core(
+        let ds = DatasetBase::new(data::blobs(cx.seed, 10, 2), data::bool_targets(10));
+        let base = |_: &[f64]| -> P { Ftrl::<f64>::params_with_rng(CountRng::new(cx.seed, &rp)) };
+        let set = |b: P, v: &[f64]| b.alpha(at(v, 0)).beta(at(v, 1)).l1_ratio(at(v, 2)).l2_ratio(at(v, 3));
+        let g = Glue {
+            cx, stale: None, first_set: None,
+            base: &base,
+            set: &set,
+            clone: Some(&|b| b.clone()),
+            touch: &|b| ignore(|| -> Result<_, FtrlError> { b.fit_with(None, &ds) }),
+        };
+        let Some((v, hb)) = guard_core(
             obs,
-            cx,
-            &mk,
+            &g,
             Some(&eq),
             Some(&eq),
             Some(&|c| vec![c.alpha(), c.beta(), c.l1_ratio(), c.l2_ratio()]),
         ) else {
             return;
         };
-        let ds = DatasetBase::new(data::blobs(cx.seed, 10, 2), data::bool_targets(10));
-        fit_core(
+        fit_core::<_, _, FtrlError>(
             obs,
-            cx,
+            &g,
             &v,
+            &hb,
             "fit_with",
-            || -> Result<_, FtrlError> { mk().fit_with(None, &ds) },
-            || mk().check().and_then(|c| c.fit_with(None, &ds)),
-            || mk().check_ref().err().map(|e| e.to_string()),
+            &|b| b.fit_with(None, &ds),
+            &|c| c.fit_with(None, &ds),
             &|| rp.get(),
-            dbg,
+            &dbg,
         );
     }
 
@@ -822,11 +678,7 @@ mod misc {
     }
 
     fn platt(cx: &Ctx, obs: &mut Obs) {
-        let (it, ms, sg) = (cx.u(0), cx.v(1), cx.v(2));
-        let mk = || Platt::<f64, Scorer>::params().maxiter(it).minstep(ms).sigma(sg);
-        let Some(v) = guard_core(obs, cx, &mk, Some(&eq), Some(&eq), None) else {
-            return;
-        };
+        type P = PlattParams<f64, Scorer>;
         let pp = Probe::new();
         // overlapping scores so that the Newton iteration has a finite optimum
         let mut x = data::blobs(cx.seed, 12, 2);
@@ -835,16 +687,28 @@ mod misc {
         y[0] = true;
         y[11] = false;
         let ds = DatasetBase::new(x, y);
-        fit_core(
+        let base = |_: &[f64]| -> P { Platt::<f64, Scorer>::params() };
+        let set = |b: P, v: &[f64]| b.maxiter(cnt(v, 0)).minstep(at(v, 1)).sigma(at(v, 2));
+        let g = Glue {
+            cx, stale: None, first_set: None,
+            base: &base,
+            set: &set,
+            clone: Some(&|b| b.clone()),
+            touch: &|b| ignore(|| -> Result<_, PlattError> { b.fit_with(Scorer(Probe::new()), &ds) }),
+        };
+        let Some((v, hb)) = guard_core(obs, &g, Some(&eq), Some(&eq), None) else {
+            return;
+        };
+        fit_core::<_, _, PlattError>(
             obs,
-            cx,
+            &g,
             &v,
+            &hb,
             "fit_with",
-            || -> Result<_, PlattError> { mk().fit_with(Scorer(pp.clone()), &ds) },
-            || mk().check().and_then(|c| c.fit_with(Scorer(pp.clone()), &ds)),
-            || mk().check_ref().err().map(|e| e.to_string()),
+            &|b| b.fit_with(Scorer(pp.clone()), &ds),
+            &|c| c.fit_with(Scorer(pp.clone()), &ds),
             &|| pp.get(),
-            eqd,
+            &eqd,
         );
     }
 
@@ -862,41 +726,43 @@ mod misc {
             .collect()
     }
 
-    fn hier(cx: &Ctx, obs: &mut Obs, mk: &dyn Fn() -> HierarchicalCluster<f64>) {
-        let Some(v) = guard_core(obs, cx, mk, Some(&eq), Some(&eq), None) else {
-            return;
-        };
+    fn hier(cx: &Ctx, obs: &mut Obs, set: &dyn Fn(HierarchicalCluster<f64>, &[f64]) -> HierarchicalCluster<f64>) {
+        type P = HierarchicalCluster<f64>;
         let x = data::blobs(cx.seed, 12, 2);
         let kernel = || Kernel::params().method(KernelMethod::Gaussian(3.0)).transform(x.view());
-        fit_core(
+        let base = |_: &[f64]| -> P { HierarchicalCluster::default() };
+        let g = Glue { cx, stale: None, first_set: None, base: &base, set, clone: Some(&|b| b.clone()), touch: &|b| ignore(|| b.transform(kernel())) };
+        let Some((v, hb)) = guard_core(obs, &g, Some(&eq), Some(&eq), None) else {
+            return;
+        };
+        fit_core::<_, Vec<usize>, HierarchicalError<f64>>(
             obs,
-            cx,
+            &g,
             &v,
+            &hb,
             "transform",
-            || -> Result<Vec<usize>, HierarchicalError<f64>> { mk().transform(kernel()).map(|d| partition(d.targets())) },
-            || mk().check().map(|c| partition(c.transform(kernel()).targets())),
-            || mk().check_ref().err().map(|e| e.to_string()),
+            &|b| b.transform(kernel()).map(|d| partition(d.targets())),
+            &|c| Ok(partition(c.transform(kernel()).targets())),
             &|| 0,
-            eq,
+            &eq,
         );
     }
     fn hier_num(cx: &Ctx, obs: &mut Obs) {
-        let n = cx.u(0);
-        hier(cx, obs, &|| HierarchicalCluster::default().num_clusters(n));
+        hier(cx, obs, &|b, v| b.num_clusters(cnt(v, 0)));
     }
     fn hier_dist(cx: &Ctx, obs: &mut Obs) {
-        let d = cx.v(0);
-        hier(cx, obs, &|| HierarchicalCluster::default().max_distance(d));
+        hier(cx, obs, &|b, v| b.max_distance(at(v, 0)));
     }
 }
 
 mod reduction {
     use super::*;
     use linfa_ica::fast_ica::FastIca;
+    use linfa_ica::hyperparams::FastIcaParams;
     use linfa_kernel::{Kernel, KernelMethod};
     use linfa_pls::{PlsCanonical, PlsCca, PlsError, PlsRegression};
     use linfa_reduction::random_projection::{GaussianRandomProjection, SparseRandomProjection};
-    use linfa_reduction::{DiffusionMap, ReductionError};
+    use linfa_reduction::{DiffusionMap, DiffusionMapParams, ReductionError};
     use linfa_tsne::{TSneError, TSneParams};
 
     fn pls_params() -> Vec<crate::spec::ParamSpec> {
@@ -908,246 +774,189 @@ mod reduction {
     }
 
     pub fn builders() -> Vec<Builder> {
+        let b = |id, params, run| Builder { id, params, ctor: NONE, cross: no_cross, narrow: no_narrow, run };
         vec![
-            Builder {
-                id: "tsne",
-                params: vec![
+            b(
+                "tsne",
+                vec![
                     // "negative perplexity"
                     p("perplexity", Ge(0.0), 5.0, &[2.0], (0.5, 5.0)),
                     // "lies in range (0, inf) where a value of 0 disables approximation": ambiguous at 0
                     p("approx_threshold", GeAmb(0.0), 0.5, &[0.2], (0.0, 2.0)),
                 ],
-                cross: no_cross,
-                narrow: no_narrow,
-                run: tsne,
-            },
-            Builder { id: "pls_regression", params: pls_params(), cross: no_cross, narrow: no_narrow, run: pls_regression },
-            Builder { id: "pls_canonical", params: pls_params(), cross: no_cross, narrow: no_narrow, run: pls_canonical },
-            Builder { id: "pls_cca", params: pls_params(), cross: no_cross, narrow: no_narrow, run: pls_cca },
-            Builder {
-                id: "fast_ica",
-                // "tolerance should be positive" while 0 is accepted: ambiguous at 0
-                params: vec![p("tol", GeAmb(0.0), 1e-4, &[1e-2], (1e-8, 1.0))],
-                cross: no_cross,
-                narrow: no_narrow,
-                run: ica,
-            },
-            Builder {
-                id: "diffusion_map",
-                params: vec![
+                tsne,
+            ),
+            b("pls_regression", pls_params(), pls_regression),
+            b("pls_canonical", pls_params(), pls_canonical),
+            b("pls_cca", pls_params(), pls_cca),
+            // "tolerance should be positive" while 0 is accepted: ambiguous at 0
+            b("fast_ica", vec![p("tol", GeAmb(0.0), 1e-4, &[1e-2], (1e-8, 1.0))], ica),
+            b(
+                "diffusion_map",
+                vec![
                     p("steps", CountGe(1), 1.0, &[3.0], (1.0, 5.0)),
                     p("embedding_size", CountGe(1), 2.0, &[3.0], (1.0, 4.0)),
                 ],
-                cross: no_cross,
-                narrow: no_narrow,
-                run: diffusion,
-            },
-            Builder {
-                id: "random_projection_gaussian_dim",
-                params: vec![p("target_dim", CountGe(1), 3.0, &[5.0], (1.0, 100.0))],
-                cross: no_cross,
-                narrow: no_narrow,
-                run: rp_gauss_dim,
-            },
-            Builder {
-                id: "random_projection_gaussian_eps",
-                // "Precision parameter must be in the interval (0; 1)"
-                params: vec![p("eps", Open(0.0, 1.0), 0.1, &[0.5, 0.9], (0.0, 1.0))],
-                cross: no_cross,
-                narrow: no_narrow,
-                run: rp_gauss_eps,
-            },
-            Builder {
-                id: "random_projection_sparse_dim",
-                params: vec![p("target_dim", CountGe(1), 3.0, &[5.0], (1.0, 100.0))],
-                cross: no_cross,
-                narrow: no_narrow,
-                run: rp_sparse_dim,
-            },
-            Builder {
-                id: "random_projection_sparse_eps",
-                params: vec![p("eps", Open(0.0, 1.0), 0.1, &[0.5, 0.9], (0.0, 1.0))],
-                cross: no_cross,
-                narrow: no_narrow,
-                run: rp_sparse_eps,
-            },
+                diffusion,
+            ),
+            b("random_projection_gaussian_dim", vec![p("target_dim", CountGe(1), 3.0, &[5.0], (1.0, 100.0))], rp_gauss_dim),
+            // "Precision parameter must be in the interval (0; 1)"
+            b("random_projection_gaussian_eps", vec![p("eps", Open(0.0, 1.0), 0.1, &[0.5, 0.9], (0.0, 1.0))], rp_gauss_eps),
+            b("random_projection_sparse_dim", vec![p("target_dim", CountGe(1), 3.0, &[5.0], (1.0, 100.0))], rp_sparse_dim),
+            b("random_projection_sparse_eps", vec![p("eps", Open(0.0, 1.0), 0.1, &[0.5, 0.9], (0.0, 1.0))], rp_sparse_eps),
         ]
     }
 
     fn tsne(cx: &Ctx, obs: &mut Obs) {
-        let (perp, th) = (cx.v(0), cx.v(1));
+        type P = TSneParams<f64, CountRng>;
         let rp = Probe::new();
-        let mk = || {
-            TSneParams::<f64, _>::embedding_size_with_rng(2, CountRng::new(cx.seed, &rp))
-                .perplexity(perp)
-                .approx_threshold(th)
-                .max_iter(4)
-        };
-        let Some(v) = guard_core(
-            obs,
-            cx,
-            &mk,
-            Some(&eq),
-            Some(&eq),
-            Some(&|c| vec![c.perplexity(), c.approx_threshold()]),
-        ) else {
+        let x = data::blobs(cx.seed, 16, 3);
+        let base = |_: &[f64]| -> P { TSneParams::<f64, _>::embedding_size_with_rng(2, CountRng::new(cx.seed, &rp)).max_iter(4) };
+        let set = |b: P, v: &[f64]| b.perplexity(at(v, 0)).approx_threshold(at(v, 1));
+        let g = Glue { cx, stale: None, first_set: None, base: &base, set: &set, clone: Some(&|b| b.clone()), touch: &|b| ignore(|| b.transform(x.clone())) };
+        let Some((v, hb)) =
+            guard_core(obs, &g, Some(&eq), Some(&eq), Some(&|c| vec![c.perplexity(), c.approx_threshold()]))
+        else {
             return;
         };
-        let x = data::blobs(cx.seed, 16, 3);
         // shape / Ok-ness only: the optimiser runs on a thread pool
-        fit_core(
+        fit_core::<_, (usize, usize), TSneError>(
             obs,
-            cx,
+            &g,
             &v,
+            &hb,
             "transform",
-            || -> Result<(usize, usize), TSneError> { mk().transform(x.clone()).map(|e| e.dim()) },
-            || mk().check().and_then(|c| c.transform(x.clone())).map(|e| e.dim()),
-            || mk().check_ref().err().map(|e| e.to_string()),
+            &|b| b.transform(x.clone()).map(|e| e.dim()),
+            &|c| c.transform(x.clone()).map(|e| e.dim()),
             &|| rp.get(),
-            eq,
+            &eq,
         );
     }
 
     macro_rules! pls {
         ($name:ident, $ty:ident) => {
             fn $name(cx: &Ctx, obs: &mut Obs) {
-                let (tol, it) = (cx.v(0), cx.u(1));
-                let mk = || $ty::<f64>::params(2).tolerance(tol).max_iterations(it);
-                let Some(v) = guard_core(obs, cx, &mk, None, None, None) else {
-                    return;
-                };
                 let x = data::blobs(cx.seed, 12, 3);
                 let y1 = data::regression_targets(&x, cx.seed);
                 let y2 = data::regression_targets(&x, cx.seed + 5).mapv(|t| t * t);
                 let y = ndarray::stack![ndarray::Axis(1), y1, y2];
                 let ds = DatasetBase::new(x, y);
-                fit_core(
-                    obs,
-                    cx,
-                    &v,
-                    "fit",
-                    || -> Result<_, PlsError> { mk().fit(&ds) },
-                    || mk().check().and_then(|c| c.fit(&ds)),
-                    || mk().check_ref().err().map(|e| e.to_string()),
-                    &|| 0,
-                    eqd,
-                );
+                let base = |_: &[f64]| $ty::<f64>::params(2);
+                let set = |b: paste_ty!($ty), v: &[f64]| b.tolerance(at(v, 0)).max_iterations(cnt(v, 1));
+                // no Clone on these builders: the "clone" variant degenerates to the same builder
+                let g = Glue { cx, stale: None, first_set: None, base: &base, set: &set, clone: None, touch: &|b| ignore(|| -> Result<_, PlsError> { b.fit(&ds) }) };
+                let Some((v, hb)) = guard_core(obs, &g, None, None, None) else {
+                    return;
+                };
+                fit_core::<_, _, PlsError>(obs, &g, &v, &hb, "fit", &|b| b.fit(&ds), &|c| c.fit(&ds), &|| 0, &eqd);
             }
         };
+    }
+    macro_rules! paste_ty {
+        (PlsRegression) => { linfa_pls::PlsRegressionParams<f64> };
+        (PlsCanonical) => { linfa_pls::PlsCanonicalParams<f64> };
+        (PlsCca) => { linfa_pls::PlsCcaParams<f64> };
     }
     pls!(pls_regression, PlsRegression);
     pls!(pls_canonical, PlsCanonical);
     pls!(pls_cca, PlsCca);
 
-    fn ica(cx: &Ctx, obs: &mut Obs) {
-        let tol = cx.v(0);
-        let mk = || FastIca::<f64>::params().tol(tol).max_iter(30).random_state(cx.seed as usize + 1);
-        let Some(v) = guard_core(obs, cx, &mk, Some(&eq), Some(&eq), Some(&|c| vec![c.tol()])) else {
-            return;
-        };
-        let ds = DatasetBase::from(data::blobs(cx.seed, 16, 2));
-        fit_core(
-            obs,
-            cx,
-            &v,
-            "fit",
-            || -> Result<_, linfa_ica::error::FastIcaError> { mk().fit(&ds) },
-            || mk().check().and_then(|c| c.fit(&ds)),
-            || mk().check_ref().err().map(|e| e.to_string()),
-            &|| 0,
-            eqd,
-        );
-    }
+    run_fit!(ica, linfa_ica::error::FastIcaError,
+        base: |_: &[f64]| FastIca::<f64>::params().max_iter(30),
+        set: |b: FastIcaParams<f64>, v: &[f64]| b.tol(at(v, 0)).random_state(7),
+        read: Some(&|c| vec![c.tol()]),
+        data: |cx: &Ctx| DatasetBase::from(data::blobs(cx.seed, 16, 2)),
+        same: eqd);
 
     fn diffusion(cx: &Ctx, obs: &mut Obs) {
-        let (steps, emb) = (cx.u(0), cx.u(1));
-        let mk = || DiffusionMap::<f64>::params(emb).steps(steps);
-        let Some(v) = guard_core(
-            obs,
-            cx,
-            &mk,
-            Some(&eq),
-            Some(&eq),
-            Some(&|c| vec![c.steps() as f64, c.embedding_size() as f64]),
-        ) else {
-            return;
-        };
+        type P = DiffusionMapParams;
         let x = data::blobs(cx.seed, 10, 2);
         let kernel = Kernel::params().method(KernelMethod::Gaussian(3.0)).transform(x.view());
-        fit_core(
+        let base = |_: &[f64]| -> P { DiffusionMap::<f64>::params(2) };
+        let set = |b: P, v: &[f64]| b.steps(cnt(v, 0)).embedding_size(cnt(v, 1));
+        let g = Glue {
+            cx, stale: None, first_set: None,
+            base: &base,
+            set: &set,
+            clone: Some(&|b| b.clone()),
+            touch: &|b| ignore(|| -> Result<DiffusionMap<f64>, ReductionError> { b.transform(&kernel) }),
+        };
+        let Some((v, hb)) =
+            guard_core(obs, &g, Some(&eq), Some(&eq), Some(&|c| vec![c.steps() as f64, c.embedding_size() as f64]))
+        else {
+            return;
+        };
+        fit_core::<_, DiffusionMap<f64>, ReductionError>(
             obs,
-            cx,
+            &g,
             &v,
+            &hb,
             "transform",
-            || -> Result<DiffusionMap<f64>, ReductionError> { mk().transform(&kernel) },
-            || mk().check().map(|c| c.transform(&kernel)),
-            || mk().check_ref().err().map(|e| e.to_string()),
+            &|b| b.transform(&kernel),
+            &|c| Ok(c.transform(&kernel)),
             &|| 0,
-            eqd,
+            &eqd,
         );
     }
 
     macro_rules! rp {
-        ($name:ident, $ty:ident, $set:ident, $conv:expr, $read:expr) => {
+        ($name:ident, $ty:ident, $pty:ident, $set:ident, $conv:expr, $read:expr) => {
             fn $name(cx: &Ctx, obs: &mut Obs) {
-                let val = cx.v(0);
+                type P = linfa_reduction::random_projection::$pty<CountRng>;
                 let rp = Probe::new();
-                let mk = || $ty::<f64>::params_with_rng(CountRng::new(cx.seed, &rp)).$set($conv(val));
-                let Some(v) = guard_core(obs, cx, &mk, None, None, Some(&$read)) else {
-                    return;
-                };
                 let ds = DatasetBase::from(data::blobs(cx.seed, 4, 80));
                 let probe_x = data::blobs(cx.seed + 1, 3, 80);
-                fit_core(
+                let base = |_: &[f64]| -> P { $ty::<f64>::params_with_rng(CountRng::new(cx.seed, &rp)) };
+                let set = |b: P, v: &[f64]| b.$set($conv(at(v, 0)));
+                // no Clone on these builders: the "clone" variant degenerates to the same builder
+                let g = Glue {
+                    cx, stale: None, first_set: None,
+                    base: &base,
+                    set: &set,
+                    clone: None,
+                    touch: &|b| ignore(|| -> Result<$ty<f64>, ReductionError> { b.fit(&ds) }),
+                };
+                let Some((v, hb)) = guard_core(obs, &g, None, None, Some(&$read)) else {
+                    return;
+                };
+                fit_core::<_, $ty<f64>, ReductionError>(
                     obs,
-                    cx,
+                    &g,
                     &v,
+                    &hb,
                     "fit",
-                    || -> Result<$ty<f64>, ReductionError> { mk().fit(&ds) },
-                    || mk().check().and_then(|c| c.fit(&ds)),
-                    || mk().check_ref().err().map(|e| e.to_string()),
+                    &|b| b.fit(&ds),
+                    &|c| c.fit(&ds),
                     &|| rp.get(),
-                    |a, b| a.transform(&probe_x) == b.transform(&probe_x),
+                    &|a, b| a.transform(&probe_x) == b.transform(&probe_x),
                 );
             }
         };
     }
-    fn as_count(v: f64) -> usize {
-        if v >= 0.0 {
-            v as usize
-        } else {
-            0
-        }
-    }
     fn as_is(v: f64) -> f64 {
         v
     }
-    rp!(rp_gauss_dim, GaussianRandomProjection, target_dim, as_count, |c: &linfa_reduction::random_projection::GaussianRandomProjectionValidParams<CountRng>| vec![c.target_dim().map(|d| d as f64).unwrap_or(f64::NAN)]);
-    rp!(rp_gauss_eps, GaussianRandomProjection, eps, as_is, |c: &linfa_reduction::random_projection::GaussianRandomProjectionValidParams<CountRng>| vec![c.eps().unwrap_or(f64::NAN)]);
-    rp!(rp_sparse_dim, SparseRandomProjection, target_dim, as_count, |c: &linfa_reduction::random_projection::SparseRandomProjectionValidParams<CountRng>| vec![c.target_dim().map(|d| d as f64).unwrap_or(f64::NAN)]);
-    rp!(rp_sparse_eps, SparseRandomProjection, eps, as_is, |c: &linfa_reduction::random_projection::SparseRandomProjectionValidParams<CountRng>| vec![c.eps().unwrap_or(f64::NAN)]);
+    rp!(rp_gauss_dim, GaussianRandomProjection, GaussianRandomProjectionParams, target_dim, as_count, |c: &linfa_reduction::random_projection::GaussianRandomProjectionValidParams<CountRng>| vec![c.target_dim().map(|d| d as f64).unwrap_or(f64::NAN)]);
+    rp!(rp_gauss_eps, GaussianRandomProjection, GaussianRandomProjectionParams, eps, as_is, |c: &linfa_reduction::random_projection::GaussianRandomProjectionValidParams<CountRng>| vec![c.eps().unwrap_or(f64::NAN)]);
+    rp!(rp_sparse_dim, SparseRandomProjection, SparseRandomProjectionParams, target_dim, as_count, |c: &linfa_reduction::random_projection::SparseRandomProjectionValidParams<CountRng>| vec![c.target_dim().map(|d| d as f64).unwrap_or(f64::NAN)]);
+    rp!(rp_sparse_eps, SparseRandomProjection, SparseRandomProjectionParams, eps, as_is, |c: &linfa_reduction::random_projection::SparseRandomProjectionValidParams<CountRng>| vec![c.eps().unwrap_or(f64::NAN)]);
 }
 
 mod text {
     use super::*;
-    use linfa_preprocessing::CountVectorizer;
+    use linfa_preprocessing::{CountVectorizer, CountVectorizerParams, PreprocessingError, Tokenizer};
     use ndarray::array;
+
+    const OTHER_REGEX: &str = r"\b[^ ][^ ]+\b";
+    const BAD_REGEX: &str = r"[";
+    const DEFAULT_REGEX: &str = r"\b\w\w+\b";
 
     fn cross(v: &[f64]) -> Expect {
         // "`min_n` should not be greater than `max_n`", "`min_freq` should not be greater than `max_freq`"
-        if v.len() == 4 && v[0] <= v[1] && v[2] <= v[3] {
+        if v.len() == 5 && v[0] <= v[1] && v[2] <= v[3] {
             Expect::In
         } else {
             Expect::Out
-        }
-    }
-    /// the recorded defect: a document frequency above 1 is the *only* thing wrong
-    fn narrow(v: &[f64]) -> Option<&'static str> {
-        let ok_else = v.len() == 4 && v[0] >= 1.0 && v[1] >= 1.0 && v[0] <= v[1] && v[2] >= 0.0 && v[3] >= 0.0 && v[2] <= v[3];
-        if ok_else && (v[2] > 1.0 || v[3] > 1.0) {
-            Some("verdict:accepted-document-frequency-above-1")
-        } else {
-            None
         }
     }
 
@@ -1160,20 +969,69 @@ mod text {
                 // "`min_freq` and `max_freq` must lie in `0..=1`"
                 p32("min_document_frequency", Closed(0.0, 1.0), 0.0, &[0.25], (0.0, 0.5)),
                 p32("max_document_frequency", Closed(0.0, 1.0), 1.0, &[0.75], (0.5, 1.0)),
+                // 0 default regex, 1 another valid regex, 2 the invalid regex "[", 3 function tokenizer
+                p("tokenizer", Category { n: 4, bad: 2 }, 0.0, &[], (0.0, 3.0)),
             ],
+            ctor: NONE,
             cross,
-            narrow,
+            narrow: no_narrow,
             run: count_vectorizer,
         }]
     }
 
+    fn split_on_space(s: &str) -> Vec<&str> {
+        s.split(' ').collect()
+    }
+
+    fn set(b: CountVectorizerParams, v: &[f64]) -> CountVectorizerParams {
+        let b = b.n_gram_range(cnt(v, 0), cnt(v, 1)).document_frequency(at(v, 2) as f32, at(v, 3) as f32);
+        match cnt(v, 4) {
+            0 => b.tokenizer(Tokenizer::Regex(DEFAULT_REGEX.to_string())),
+            1 => b.tokenizer(Tokenizer::Regex(OTHER_REGEX.to_string())),
+            2 => b.tokenizer(Tokenizer::Regex(BAD_REGEX.to_string())),
+            _ => b.tokenizer(Tokenizer::Function(split_on_space)),
+        }
+    }
+
     fn count_vectorizer(cx: &Ctx, obs: &mut Obs) {
-        let (a, b, lo, hi) = (cx.u(0), cx.u(1), cx.v(2) as f32, cx.v(3) as f32);
-        let mk = || CountVectorizer::params().n_gram_range(a, b).document_frequency(lo, hi);
-        let Some(v) = guard_core(
+        type P = CountVectorizerParams;
+        // the three tokenizers split these documents differently
+        let texts = array![
+            "one-two three a four",
+            "two three four",
+            "three four five b",
+            "four five-six seven",
+            "one four",
+            "seven four two"
+        ];
+        let base = |_: &[f64]| -> P { CountVectorizer::params() };
+        // Recorded defect, direction 1: `.tokenizer(Tokenizer::Function(f))` keeps an earlier invalid regex
+        // expression, which check_ref still compiles although it is no longer used. Recognised exactly by the
+        // error text of the stale regex.
+        let bad_regex_then_function = cx.hist.as_ref().map(|h| cnt(h.vals, 4) == 2).unwrap_or(false) && cnt(cx.vals, 4) == 3;
+        let stale = if bad_regex_then_function {
+            obs.class("invalid_regex_then_function_tokenizer");
+            let mut with_bad = cx.vals.to_vec();
+            if let Some(t) = with_bad.get_mut(4) {
+                *t = 2.0;
+            }
+            set(base(cx.vals), &with_bad)
+                .check_ref()
+                .err()
+                .map(|e| ("history:function-tokenizer-after-invalid-regex-still-rejected", e.to_string()))
+        } else {
+            None
+        };
+        let g = Glue {
+            cx, stale, first_set: None,
+            base: &base,
+            set: &set,
+            clone: Some(&|b| b.clone()),
+            touch: &|b| ignore(|| b.fit(&texts)),
+        };
+        let Some((v, hb)) = guard_core(
             obs,
-            cx,
-            &mk,
+            &g,
             None,
             None,
             Some(&|c| {
@@ -1184,41 +1042,71 @@ mod text {
         ) else {
             return;
         };
-        let texts = array![
-            "one two three four",
-            "two three four",
-            "three four five",
-            "four five six seven",
-            "one four",
-            "seven four two"
-        ];
         let voc = |c: CountVectorizer| {
             let mut w = c.vocabulary().clone();
             w.sort();
             w
         };
-        fit_core(
+        // Recorded defect, direction 2 (own signature): `.tokenizer(Tokenizer::Regex(..))` on a builder that holds a function
+        // tokenizer keeps the function, so the regex that was just set is ignored. Recognised exactly: the result
+        // must then equal that of a fresh builder with the function tokenizer; anything else fails as usual.
+        let function_then_regex = cx.hist.as_ref().map(|h| cnt(h.vals, 4) == 3).unwrap_or(false) && cnt(cx.vals, 4) <= 1;
+        if function_then_regex && v.ok && cx.fit_safe {
+            let mut as_function = cx.vals.to_vec();
+            if let Some(t) = as_function.get_mut(4) {
+                *t = 3.0;
+            }
+            let got = vengine::guard(|| hb.fit(&texts).map(voc).map_err(|e| e.to_string()));
+            let want = vengine::guard(|| set(base(cx.vals), cx.vals).fit(&texts).map(voc).map_err(|e| e.to_string()));
+            let defect = vengine::guard(|| set(base(cx.vals), &as_function).fit(&texts).map(voc).map_err(|e| e.to_string()));
+            obs.class("function_tokenizer_then_regex");
+            match (got, want, defect) {
+                (Ok(g0), Ok(w0), Ok(d0)) => {
+                    if g0 != w0 {
+                        if g0 == d0 {
+                            obs.fail(
+                                cx.sig("history:regex-after-function-tokenizer-keeps-function"),
+                                format!(
+                                    "after .tokenizer(Tokenizer::Function(f)) a later .tokenizer(Tokenizer::Regex(r)) is ignored: fit gave {:?}, a fresh builder with the regex gives {:?} ({})",
+                                    g0,
+                                    w0,
+                                    cx.describe()
+                                ),
+                            );
+                        } else {
+                            obs.fail(
+                                cx.sig("fit:valid-differs-from-checked"),
+                                format!("fit gave {:?}, a fresh builder gives {:?} ({})", g0, w0, cx.describe()),
+                            );
+                        }
+                    }
+                }
+                _ => obs.fail(cx.sig("fit:panics-on-valid"), format!("fit panicked ({})", cx.describe())),
+            }
+            return;
+        }
+        fit_core::<_, _, PreprocessingError>(
             obs,
-            cx,
+            &g,
             &v,
+            &hb,
             "fit",
-            || mk().fit(&texts).map(voc),
-            || mk().check().and_then(|c| c.fit(&texts)).map(voc),
-            || mk().check_ref().err().map(|e| e.to_string()),
+            &|b| b.fit(&texts).map(voc),
+            &|c| c.fit(&texts).map(voc),
             &|| 0,
-            eq,
+            &eq,
         );
         let words = ["alpha", "beta", "gamma"];
-        fit_core(
+        fit_core::<_, _, PreprocessingError>(
             obs,
-            cx,
+            &g,
             &v,
+            &hb,
             "fit_vocabulary",
-            || mk().fit_vocabulary(&words).map(voc),
-            || mk().check().and_then(|c| c.fit_vocabulary(&words)).map(voc),
-            || mk().check_ref().err().map(|e| e.to_string()),
+            &|b| b.fit_vocabulary(&words).map(voc),
+            &|c| c.fit_vocabulary(&words).map(voc),
             &|| 0,
-            eq,
+            &eq,
         );
     }
 }
